@@ -249,9 +249,10 @@ Print Assumptions C20_ex_roundtrip_instance.
 
 (** a concrete history: encode, a failing decode (bad magic byte: the reader is
     dropped), a decode into a small dst full of garbage served by the pooled
-    reader (three doublings), a stream that ends in a Read error (Reset(nil) then
-    fails and the broken reader is NOT put back), a valid decode right after it,
-    a GC, a decode with no dst *)
+    reader (three doublings), a stream that ends in a Read error (the reader is
+    broken although its Reset returns nil: NOT put back, the run was not clean), a
+    valid decode right after it, a clean stream after which Reset(nil) fails (NOT
+    put back), a valid decode, a GC, a decode with no dst *)
 Example C20_ex_history :
   mg_outcomes 100
     [ EvEncode None [] [1; 2; 3];
@@ -260,6 +261,8 @@ Example C20_ex_history :
       EvDecode (Some 0%nat) [7; 7] [31; 1; 2; 3; 4; 5; 6; 7; 8; 9];
       EvDecode (Some 0%nat) [] [30; 5; 6];
       EvDecode (Some 0%nat) [7] [31; 4; 4; 4];
+      EvDecode (Some 0%nat) [] [29; 8; 8];
+      EvDecode (Some 0%nat) [7] [31; 2; 2];
       EvGc true 0%nat;
       EvDecode (Some 3%nat) [] [31; 1; 2; 3] ]
   = [ Done [31; 1; 2; 3] false;
@@ -268,6 +271,8 @@ Example C20_ex_history :
       Done [1; 2; 3; 4; 5; 6; 7; 8; 9] false;
       Done [5; 6] true;
       Done [4; 4; 4] false;
+      Done [8; 8] false;
+      Done [2; 2] false;
       Done [] false;
       Done [1; 2; 3] false ].
 Proof. vm_compute. reflexivity. Qed.
